@@ -395,12 +395,14 @@ def minimal_replay(script, tags, k):
 
 
 # ---------------------------------------------------------------------------------------------------------------
-# tracks (both generations): harness only — the track models have no history-with-failures theorem yet (see
-# design/C15_faults.md, limits); the direct oracle is the same: after a fault at EVERY statement position of every
+# tracks (both generations).  2.x: harness and model (mode c15ftv2 = Api/FaultsTracksV2.callF, the semantics of
+# v2t_C15_after_faults_no_ub; design/C15_faults.md §6); 1.x: harness only (no history-with-failures theorem yet).
+# The direct oracle is the same: after a fault at EVERY statement position of every
 # create / update / setter / remove call (and after a duplicate relative path: UNIQUE(path)), every getter, snapshot()
 # and a further mutating call must complete or throw.
 
 TRACK_MUT = ("set", "update", "mktrack", "rmtrack")
+TRACK_MODE_V2 = "c15ftv2"
 
 
 def track_plan(fam, rng, tier, schema, hid, nadv):
@@ -412,6 +414,8 @@ def track_plan(fam, rng, tier, schema, hid, nadv):
         L = C15_tracks_v1.gen_script(rng, tier, schema, hid, nadv, "create")
         npre = 5
     pre = [L[0]] + L[1:npre]      # `#mode c15tv2` / `#mode c15tv1`: the harness skips it; names the replay
+    if fam == "v2":
+        pre[0] = "#mode " + TRACK_MODE_V2     # the model side: Api/FaultsTracksV2.callF (Driver/Cmds/C15FaultsTracks.lean)
     first = next(l for l in pre if l.startswith("mktrack ta "))
     calls = [l for l in L[npre:] if l.split()[0] in TRACK_MUT]
     # duplicate relative path (UNIQUE(path)): the snapshot of `ta` again, under a new handle; then a setter moving tb onto it
@@ -479,9 +483,14 @@ def track_stream(ctx, hist):
             block(ci, n)
         scripts2.append((fam, L, tags))
     hres = runner.run_harness([x[1] for x in scripts2], watchdog=20, stateless=False)
+    # 2.x: the model runs the same fault histories (each call as its statement program under the corresponding plan)
+    v2idx = [i for i, x in enumerate(scripts2) if x[0] == "v2"]
+    mres = dict(zip(v2idx, runner.run_model([scripts2[i][1] for i in v2idx]))) if v2idx else {}
     evals = 0
     seen = set()
-    for (fam, L, tags), (ho, reports) in zip(scripts2, hres):
+    for si, ((fam, L, tags), (ho, reports)) in enumerate(zip(scripts2, hres)):
+        mo = mres.get(si)
+        done_div = False
         blocks = {}
         for tg, h in zip(tags, ho):
             if tg[0] == "obs":
@@ -514,6 +523,22 @@ def track_stream(ctx, hist):
                     hist["partial_updates"] += 1
                     if len(hist["partial_update_examples"]) < 6:
                         hist["partial_update_examples"].append("%s tracks: `%s` failed at statement %d" % (L[1], L[k - 1][:60], tg[2]))
+            # ---- tie (2.x): every line equal to the model's (`ok <text>` literally, `throw` as a class, fired flag)
+            if mo is not None and k < len(mo):
+                m = mo[k]
+                hist["track_model_lines"] += 1
+                if desync:
+                    if K.cls(m) == "ub":
+                        divergences.append({"input": l, "script": L[1], "impl": h[:200], "model": m[:200]})
+                elif not done_div:
+                    if tg[0] == "status":
+                        same = ("fired=1" in h) == ("fired=1" in m)
+                    else:
+                        same = K.canon(h) == K.canon(m)
+                    if not same:
+                        divergences.append({"input": " ; ".join(L[max(1, k - 4):k + 1])[-900:], "script": L[1],
+                                            "impl": h[:400], "model": m[:400]})
+                        done_div = True
     return violations, divergences, evals, len(seen)
 
 
@@ -579,7 +604,7 @@ def tie(ctx):
         evals += e
         distinct += n
     hist.update({"track_positions_per_call": {}, "track_fault_experiments": 0, "track_outcome_faulted": {},
-                 "track_outcome_call": {}, "track_fault_positions_per_op": {}})
+                 "track_outcome_call": {}, "track_fault_positions_per_op": {}, "track_model_lines": 0})
     tv, td, te, tn = track_stream(ctx, hist)
     violations += tv
     divergences += td
@@ -591,13 +616,15 @@ def tie(ctx):
                     "calls); the number n of faultable statements of each call observed in a recording pass; then `fault k` for "
                     "EVERY k < n, the call, and after each failure v*.obs + raw tables + every query through every live and stale "
                     "handle; model = the call's statement program under the corresponding fault plan (Api/Faults*.callF); "
-                    "oracle: no `ub` line, a faulted call throws; distinct = distinct (schema, line, position).  Tracks (harness "
-                    "only): the create / update / setter / remove calls of the track parts' adversarial generators and a duplicate "
-                    "relative path, a fault at every statement position, then snapshot() and getters of every track"
+                    "oracle: no `ub` line, a faulted call throws; distinct = distinct (schema, line, position).  Tracks: the "
+                    "create / update / setter / remove calls of the track parts' adversarial generators and a duplicate "
+                    "relative path, a fault at every statement position, then snapshot() and getters of every track; 2.x: model = "
+                    "Api/FaultsTracksV2.callF on the statement-level Track table, getters on its row store (mode c15ftv2), every "
+                    "line compared; 1.x: harness only"
                     % len(fixed_calls("v2")),
             "samples": [" ; ".join(x[1][-3:])[:200] for x in scripts2[:2]],
             "histograms": hist, "divergences": divergences[:10], "violations": violations[:6]}
 
 
 def replay(ctx, hdr, body):
-    return K.replay([F["mode"] for F in FAMILIES.values()], hdr, body)
+    return K.replay([F["mode"] for F in FAMILIES.values()] + [TRACK_MODE_V2], hdr, body)
